@@ -6,14 +6,20 @@ Property theorems only.  Model: `CppUModel/Model/Runner.lean` (from `Utest.cpp`,
 `UtestPlatform.cpp`, `TestResult`, `TestOutput.cpp`, `TestPlugin.cpp`, `TestRegistry.cpp`,
 `CommandLineTestRunner.cpp`); vocabulary (textbook reading of the property, console reader):
 `CppUModel/Spec/Runner.lean`.  Regenerated from the source on every run: the length of the
-setjmp buffer array, `TestResult::isFailure`, the return expression of `runAllTests`
-(`Gen/RunnerConstants.lean`).
+setjmp buffer array, `TestResult::isFailure`, the verdict condition of
+`TestOutput::printTestsEnded`, the return expression of `runAllTests` (`Gen/RunnerConstants.lean`).
 
 All theorems hold for every test program (any number of tests, any statements in the three
 phases), every plugin chain, every filter set, every repeat count and **both build variants**
-(`cfg.exceptions` is universally quantified), with rethrow mode off.
+(`cfg.exceptions` is universally quantified), every verbosity (`-v`, `-vv`), with and without
+colour, every stream of clock readings, with rethrow mode off — and in rethrow mode as long as no
+std / foreign exception leaves a test (`QuietTest`); what happens when one does is
+`rethrow_propagates`.
 -/
 namespace Runner
+
+/-- rethrow mode off: every test is quiet -/
+theorem quiet_of_rethrow_off {cfg : Cfg} (hr : cfg.rethrow = false) (t : Test) : QuietTest cfg t := Or.inl hr
 
 /-- the two slots a test needs: `jmp_buf_index = d` on entry, `d` and `d+1` inside the array -/
 theorem inBuf_of {d : Int} (h0 : 0 ≤ d) (h1 : d + 2 ≤ Int.ofNat Gen.Runner.jmpBufLen) :
@@ -85,7 +91,7 @@ theorem phase_without_terminator_completes (cfg : Cfg) (t : Test) (ph : Phase) (
 theorem test_outcome (cfg : Cfg) (plugins : List Plugin) (t : Test) (st : TSt)
     (hr : cfg.rethrow = false) (h0 : 0 ≤ st.depth) (h1 : st.depth + 2 ≤ Int.ofNat Gen.Runner.jmpBufLen) :
     ∃ j, runOneTest cfg plugins t st = .ok j ∧ TestOutcome cfg plugins t st j :=
-  runOneTest_closed cfg plugins t st hr (inBuf_of h0 h1).1 (inBuf_of h0 h1).2
+  runOneTest_closed cfg plugins t st (quiet_of_rethrow_off hr t) (inBuf_of h0 h1).1 (inBuf_of h0 h1).2
 
 /-- **body_iff_setup_completed**: the body is entered (exactly once) iff setup reached its end. -/
 theorem body_iff_setup_completed (cfg : Cfg) (plugins : List Plugin) (t : Test) (st : TSt) (j : JmpOut)
@@ -158,7 +164,7 @@ theorem failed_flag_iff (cfg : Cfg) (plugins : List Plugin) (t : Test) (st : TSt
 theorem jmp_depth_restored_tests (cfg : Cfg) (plugins : List Plugin) (ts : List Test) (s : LSt)
     (hr : cfg.rethrow = false) (h0 : 0 ≤ s.depth) (h1 : s.depth + 2 ≤ Int.ofNat Gen.Runner.jmpBufLen) :
     ∃ a, runTests cfg plugins ts s = .ok a ∧ a.st.depth = s.depth ∧ a.st.current = s.current := by
-  obtain ⟨a, ha, o⟩ := runTests_closed cfg plugins hr ts s (inBuf_of h0 h1).1 (inBuf_of h0 h1).2
+  obtain ⟨a, ha, o⟩ := runTests_closed cfg plugins ts s (fun t _ => quiet_of_rethrow_off hr t) (inBuf_of h0 h1).1 (inBuf_of h0 h1).2
   exact ⟨a, ha, o.depth, o.current⟩
 
 /-- after every single test of the run the observed depth and current test are the initial ones -/
@@ -166,7 +172,7 @@ theorem depth_after_every_test (cfg : Cfg) (plugins : List Plugin) (ts : List Te
     (hr : cfg.rethrow = false) (h0 : 0 ≤ s.depth) (h1 : s.depth + 2 ≤ Int.ofNat Gen.Runner.jmpBufLen) :
     ∃ a, runTests cfg plugins ts s = .ok a ∧
       ∀ e ∈ endedOf a.evs, e.1 = s.depth ∧ e.2.1 = s.current := by
-  obtain ⟨a, ha, o⟩ := runTests_closed cfg plugins hr ts s (inBuf_of h0 h1).1 (inBuf_of h0 h1).2
+  obtain ⟨a, ha, o⟩ := runTests_closed cfg plugins ts s (fun t _ => quiet_of_rethrow_off hr t) (inBuf_of h0 h1).1 (inBuf_of h0 h1).2
   refine ⟨a, ha, ?_⟩
   rw [o.ended]
   intro e he
@@ -181,14 +187,14 @@ theorem depth_after_every_test (cfg : Cfg) (plugins : List Plugin) (ts : List Te
 theorem run_outcome (cfg : Cfg) (plugins : List Plugin) (ts : List Test) (n : Nat) (d : Int)
     (hr : cfg.rethrow = false) (h0 : 0 ≤ d) (h1 : d + 2 ≤ Int.ofNat Gen.Runner.jmpBufLen) :
     ∃ o, runAllTests cfg plugins ts n d = .ok o ∧ RunOutcome cfg plugins ts n d o :=
-  runAllTests_closed cfg plugins ts n d hr (inBuf_of h0 h1).1 (inBuf_of h0 h1).2
+  runAllTests_closed cfg plugins ts n d (fun t _ => quiet_of_rethrow_off hr t) (inBuf_of h0 h1).1 (inBuf_of h0 h1).2
 
 /-- the same at top level, where the only hypothesis left is the regenerated array length (checked
     by `decide` in `inBuf_top`): the 10-slot array is never indexed out of range -/
 theorem run_outcome_top (cfg : Cfg) (plugins : List Plugin) (ts : List Test) (n : Nat)
     (hr : cfg.rethrow = false) :
     ∃ o, runAllTests cfg plugins ts n 0 = .ok o ∧ RunOutcome cfg plugins ts n 0 o :=
-  runAllTests_closed cfg plugins ts n 0 hr inBuf_top.1 inBuf_top.2
+  runAllTests_closed cfg plugins ts n 0 (fun t _ => quiet_of_rethrow_off hr t) inBuf_top.1 inBuf_top.2
 
 /-- **jmp_depth_restored_run**: after all repetitions the depth is the initial one -/
 theorem jmp_depth_restored_run (cfg : Cfg) (plugins : List Plugin) (ts : List Test) (n : Nat)
@@ -232,70 +238,50 @@ theorem failure_location (cfg : Cfg) (t : Test) (s : Stmt) (r : FailRec) (h : s.
   · obtain ⟨_, rfl⟩ := h; simp
   · obtain ⟨_, rfl⟩ := h; simp
 
-/-- what is printed for a record is read back by a reader of the console as that record: its own
-    file:line, the test name, the message (both print shapes of `TestOutput::printFailure`) -/
-theorem failure_printed_with_location (r : FailRec) (rest : List String) (hmsg : r.msg ≠ ":") :
-    ∃ p, parseFailureAt (failureToks r ++ rest) = some p ∧ p.file = r.file ∧ p.line = toString r.line ∧
-      p.testName = r.testName ∧ p.msg = r.msg :=
-  ⟨r.printed, parseFailureAt_failureToks r rest hmsg, rfl, rfl, rfl, rfl⟩
-
 /-- **summary_counts_true**: every repetition prints one summary, and it carries the true counts
-    (tests, run, checks, ignored, filtered out, failures). -/
+    (tests, run, checks, ignored, filtered out, failures) — for every verbosity, colour setting and
+    stream of clock readings. -/
 theorem summary_counts_true (cfg : Cfg) (plugins : List Plugin) (ts : List Test) (n : Nat)
     (hr : cfg.rethrow = false) :
     ∃ o, runAllTests cfg plugins ts n 0 = .ok o ∧
-      summariesOf o.evs = List.replicate n (expectedCounts cfg plugins ts) ∧
+      (summariesOf o.evs).map Prod.fst = List.replicate n (expectedCounts cfg plugins ts) ∧
       o.reps = List.replicate n (expectedCounts cfg plugins ts) := by
   obtain ⟨o, ho, oo⟩ := run_outcome_top cfg plugins ts n hr
   exact ⟨o, ho, oo.summaries, oo.reps⟩
 
-theorem isFailure_iff (r : Result) : r.isFailure = true ↔ ¬ r.ok := by
-  unfold Result.isFailure Gen.Runner.isFailure Result.ok
-  simp only [Bool.or_eq_true, bne_iff_ne, beq_iff_eq, ne_eq]
-  omega
+/-- **printed_verdict_is_the_returned_verdict**: the condition `printTestsEnded` uses to choose between
+    "Errors (" and "OK (" and the condition the runner's return value is computed from
+    (`TestResult::isFailure`) — both regenerated from the source — agree on every result. -/
+theorem printed_verdict_is_the_returned_verdict (r : Result) : r.printsFailure = r.isFailure := by
+  have h1 := printsFailure_iff r
+  have h2 := isFailure_iff r
+  cases hp : r.printsFailure <;> cases hi : r.isFailure <;> simp_all
 
-/-- the printed summary line is read back as the counts it was printed for -/
-theorem summary_printed (r : Result) (rest : List String) :
-    parseSummaryAt ((summaryToks r ++ rest).tail) = some r.printedSummary := by
-  rw [parseSummaryAt_summaryToks]
-  have h := isFailure_iff r
-  unfold Result.printedSummary
-  by_cases hok : r.ok
-  · have hf : r.isFailure = false := by
-      cases hx : r.isFailure
-      · rfl
-      · exact absurd hok (h.mp hx)
-    have h0 : r.failureCount = 0 := hok.1
-    simp [hf, hok, h0]
-  · have hf : r.isFailure = true := h.mpr hok
-    by_cases h0 : r.failureCount = 0
-    · simp [hf, hok, h0]
-    · have : r.failureCount > 0 := Nat.pos_of_ne_zero h0
-      simp [hf, hok, h0, this]
+/-- **summary_ok_iff**: the summary a repetition prints is read back (by the reader that scans the
+    whole text) as exactly one summary carrying the true counts and the elapsed time, and it reads
+    "OK (" exactly when the repetition had no failure and ran or ignored at least one test — with and
+    without colour. -/
+theorem summary_ok_iff (c : Bool) (r : Result) (time : Nat) (rest : List String) :
+    ∃ p, scanSummaries (summaryToks c r time ++ rest) = p :: scanSummaries rest ∧
+      (p.ok = true ↔ r.failureCount = 0 ∧ 0 < r.runCount + r.ignoredCount) ∧
+      p.tests = toString r.testCount ∧ p.ran = toString r.runCount ∧ p.checks = toString r.checkCount ∧
+      p.ignored = toString r.ignoredCount ∧ p.filtered = toString r.filteredOutCount ∧ p.time = toString time ∧
+      (p.failures = if r.failureCount = 0 then none else some (toString r.failureCount)) :=
+  ⟨r.printedSummary time, scanSummaries_summaryToks c r time rest, decide_eq_true_iff, rfl, rfl, rfl, rfl, rfl, rfl, rfl⟩
 
-/-- **summary_ok_iff**: the summary reads "OK (" exactly when the repetition had no failure and
-    ran or ignored at least one test. -/
-theorem summary_ok_iff (r : Result) (rest : List String) :
-    ∃ p, parseSummaryAt ((summaryToks r ++ rest).tail) = some p ∧
-      (p.ok = true ↔ r.failureCount = 0 ∧ 0 < r.runCount + r.ignoredCount) := by
-  refine ⟨r.printedSummary, summary_printed r rest, ?_⟩
-  exact decide_eq_true_iff
-
-/-- ... and the head token itself -/
-theorem summary_head_ok_iff (r : Result) :
-    (summaryHead r).head? = some "OK (" ↔ r.failureCount = 0 ∧ 0 < r.runCount + r.ignoredCount := by
-  have h := isFailure_iff r
-  unfold summaryHead
-  by_cases hok : r.ok
-  · have hf : r.isFailure = false := by
-      cases hx : r.isFailure
-      · rfl
-      · exact absurd hok (h.mp hx)
-    simp only [hf]; simpa [Result.ok] using hok
-  · have hf : r.isFailure = true := h.mpr hok
-    simp only [hf, if_true]
-    have : ¬(r.failureCount = 0 ∧ 0 < r.runCount + r.ignoredCount) := hok
-    split <;> simp [this]
+/-- the colour option only adds the three escape strings -/
+theorem colour_only_wraps (r : Result) (time : Nat) :
+    (summaryToks true r time).filter (fun s => s != "\x1b[31;1m" && s != "\x1b[32;1m" && s != "\x1b[m")
+      = summaryToks false r time := by
+  have hn : ∀ n : Nat, (n.repr != "\x1b[31;1m" && n.repr != "\x1b[32;1m" && n.repr != "\x1b[m") = true := by
+    intro n
+    have a := repr_ne_of_nondigit n "\x1b[31;1m" '[' (by decide) (by decide)
+    have b := repr_ne_of_nondigit n "\x1b[32;1m" '[' (by decide) (by decide)
+    have c := repr_ne_of_nondigit n "\x1b[m" '[' (by decide) (by decide)
+    simp [a, b, c]
+  unfold summaryToks summaryHead
+  cases r.printsFailure <;> by_cases h0 : r.failureCount > 0 <;>
+    simp [h0, noteText, List.filter_cons, hn]
 
 /-! ## the value the runner returns -/
 
@@ -347,43 +333,226 @@ theorem exit_zero_iff (cfg : Cfg) (plugins : List Plugin) (ts : List Test) (n : 
 theorem exit_value_wraps : Gen.Runner.returnValue 4294967296 1 = 0 ∧ Gen.Runner.returnValue 4294967295 1 ≠ 0 := by
   constructor <;> decide
 
-/-! ## the same limit with a real program, and the console reader on a whole run -/
+/-! ## the reader of the whole console text -/
 
-theorem toksOf_append (a b : List Ev) : toksOf (a ++ b) = toksOf a ++ toksOf b := by
-  simp [toksOf, List.flatMap_append]
+/-- **record_read_back**: whatever is printed before and after it, the strings of one failure record
+    are read back as exactly that record — its own file:line, test name, message, in both print
+    shapes of `TestOutput::printFailure`. -/
+theorem record_read_back (r : FailRec) (hc : r.clean) (before after : List String) :
+    ∃ w, scanFrom before (failureToks r ++ after) = r.printed :: scanFrom w after ∧
+      r.printed.file = r.file ∧ r.printed.line = toString r.line ∧ r.printed.testName = r.testName ∧
+      r.printed.msg = r.msg :=
+  ⟨_, scanFrom_failureToks r hc before after, rfl, rfl, rfl, rfl⟩
 
-/-- **console_reader_partial**: wherever the run prints a failure record, a reader positioned there
-    reads back exactly that record; wherever it prints a summary, the reader reads back the counts
-    of that repetition. -/
-theorem console_reader_partial (pre post : List Ev) :
-    (∀ r, r.msg ≠ ":" →
-      parseFailureAt ((toksOf (pre ++ .failure r :: post)).drop (toksOf pre).length) = some r.printed) ∧
-    (∀ r, parseSummaryAt (((toksOf (pre ++ .summary r :: post)).drop (toksOf pre).length).tail) = some r.printedSummary) := by
-  constructor
-  · intro r hmsg
-    have : toksOf (pre ++ .failure r :: post) = toksOf pre ++ (failureToks r ++ toksOf post) := by
-      rw [toksOf_append]; simp [toksOf, Ev.toks]
-    rw [this, List.drop_left]
-    exact parseFailureAt_failureToks r _ hmsg
-  · intro r
-    have : toksOf (pre ++ .summary r :: post) = toksOf pre ++ (summaryToks r ++ toksOf post) := by
-      rw [toksOf_append]; simp [toksOf, Ev.toks]
-    rw [this, List.drop_left]
-    exact summary_printed r _
+/-- failing events of a program are clean when their free strings are not markers (the test name
+    never is: it ends in ")") -/
+theorem clean_of_strings (cfg : Cfg) (t : Test) (loc : Loc) (msg : String)
+    (h1 : msg ≠ ":") (h2 : msg ∉ markers) (h3 : loc.file ∉ markers) (h4 : t.file ∉ markers) :
+    (mkRec cfg t loc msg).clean :=
+  ⟨h1, h2, h3, h4, formattedName_not_marker cfg t⟩
 
-/-- Full strength, NOT proved: scanning the *whole* console text of a run (every position, not only
-    the positions where a record starts) yields exactly the failing events and the summaries.  It
-    needs well-formedness of every string of the program (no test name, file name or message equal
-    to "\n" or ":", ...) and a case analysis over every token the runner can print next to a
-    record.  The check covers it per run instead: the oracle scans the implementation's text with
-    `scanFailures`/`scanSummaries`, and the model's text is compared with it token by token. -/
-def console_reader_full : Prop :=
-  ∀ (cfg : Cfg) (plugins : List Plugin) (ts : List Test) (n : Nat), cfg.rethrow = false →
-    (∀ r ∈ expectedFailures cfg plugins ts, r.msg ≠ ":" ∧ r.msg ≠ "\n" ∧ r.file ≠ ":" ∧ r.file ≠ "\n" ∧
-        r.testFile ≠ ":" ∧ r.testFile ≠ "\n") →
+/-- **console_reader_full**: reading the WHOLE console text of a run — every position, every
+    verbosity, with or without colour, any clock — yields exactly the failing events of every
+    repetition, in order, each once, with its own file:line, and exactly one summary per repetition
+    carrying the true counts; provided the free strings of the failing events (message, file names)
+    are not themselves one of the three marker strings and no message is a lone ":". -/
+theorem console_reader_full (cfg : Cfg) (plugins : List Plugin) (ts : List Test) (n : Nat)
+    (hr : cfg.rethrow = false) (hclean : ∀ r ∈ expectedFailures cfg plugins ts, r.clean) :
     ∃ o, runAllTests cfg plugins ts n 0 = .ok o ∧
-      scanFailures (toksOf o.evs) = (failuresOf o.evs).map FailRec.printed ∧
-      scanSummaries (toksOf o.evs) = (summariesOf o.evs).map Result.printedSummary
+      scanFailures (toksOf cfg.color o.evs) =
+        ((List.replicate n (expectedFailures cfg plugins ts)).flatten).map FailRec.printed ∧
+      scanSummaries (toksOf cfg.color o.evs) = (summariesOf o.evs).map (fun x => x.1.printedSummary x.2) ∧
+      (scanSummaries (toksOf cfg.color o.evs)).map (fun p => (p.ok, p.tests, p.ran, p.checks, p.ignored, p.filtered, p.failures))
+        = List.replicate n
+            (let p := (expectedCounts cfg plugins ts).printedSummary 0
+             (p.ok, p.tests, p.ran, p.checks, p.ignored, p.filtered, p.failures)) := by
+  obtain ⟨o, ho, oo⟩ := run_outcome_top cfg plugins ts n hr
+  have hce : CleanEvs o.evs := by
+    refine ⟨oo.safe, ?_⟩
+    rw [oo.failures]
+    intro r hrm
+    simp only [flattenRep, List.mem_flatten, List.mem_replicate] at hrm
+    obtain ⟨l, ⟨_, rfl⟩, hrl⟩ := hrm
+    exact hclean r hrl
+  have hs := scanSummaries_toksOf cfg.color o.evs hce
+  refine ⟨o, ho, ?_, hs, ?_⟩
+  · unfold scanFailures
+    rw [scanFrom_toksOf cfg.color o.evs [] hce, oo.failures]
+    rfl
+  · rw [hs, List.map_map]
+    have hm := oo.summaries
+    have : (summariesOf o.evs).map ((fun p : PrintedSummary => (p.ok, p.tests, p.ran, p.checks, p.ignored, p.filtered, p.failures)) ∘
+        (fun x : Result × Nat => x.1.printedSummary x.2)) =
+        ((summariesOf o.evs).map Prod.fst).map (fun r => ((r.printedSummary 0).ok, (r.printedSummary 0).tests,
+          (r.printedSummary 0).ran, (r.printedSummary 0).checks, (r.printedSummary 0).ignored,
+          (r.printedSummary 0).filtered, (r.printedSummary 0).failures)) := by
+      rw [List.map_map]
+      apply List.map_congr_left
+      intro x _
+      rfl
+    rw [this, hm, List.map_replicate]
+
+/-- **summary_time_is_elapsed**: the time a summary shows is the last clock reading of its repetition
+    minus the first one, as unsigned 64-bit subtraction — whatever the clock does. -/
+theorem summary_time_is_elapsed (cfg : Cfg) (plugins : List Plugin) (ts : List Test) (s : LSt)
+    (hres : s.res = {}) (hr : cfg.rethrow = false) (h0 : 0 ≤ s.depth) (h1 : s.depth + 2 ≤ Int.ofNat Gen.Runner.jmpBufLen) :
+    ∃ a, registryRunAll cfg plugins ts s = .ok a ∧
+      ∃ first last, (clocksOf a.evs).head? = some first ∧ (clocksOf a.evs).getLast? = some last ∧
+        summariesOf a.evs = [(expectedCounts cfg plugins ts, elapsed last first)] := by
+  obtain ⟨a, ha, oa⟩ := registryRunAll_closed cfg plugins ts s hres (fun t _ => quiet_of_rethrow_off hr t)
+    (inBuf_of h0 h1).1 (inBuf_of h0 h1).2
+  exact ⟨a, ha, oa.summary⟩
+
+/-- the counts do not depend on the clock readings, the verbosity or the colour option -/
+theorem counts_independent_of_output_options (cfg : Cfg) (plugins : List Plugin) (ts : List Test)
+    (clock : List Nat) (v vv c : Bool) :
+    expectedCounts { cfg with clock := clock, verbose := v, veryVerbose := vv, color := c } plugins ts
+      = expectedCounts cfg plugins ts := rfl
+
+/-! ## progress output (no `-v`) -/
+
+/-- **progress_output**: without `-v`/`-vv` the plain strings of a repetition are one "." per test
+    that runs and one "!" per ignored test, in order, with a line break after every 50th. -/
+theorem progress_output (cfg : Cfg) (plugins : List Plugin) (ts : List Test) (s : LSt)
+    (hv : cfg.anyVerbose = false) (hres : s.res = {}) (hr : cfg.rethrow = false)
+    (h0 : 0 ≤ s.depth) (h1 : s.depth + 2 ≤ Int.ofNat Gen.Runner.jmpBufLen) :
+    ∃ a, registryRunAll cfg plugins ts s = .ok a ∧
+      plainToksOf a.evs = progressToks ((selected cfg ts).map (indicatorOf cfg)) s.out.dotCount ∧
+      a.st.out.dotCount = 0 := by
+  obtain ⟨a, ha, oa⟩ := registryRunAll_closed cfg plugins ts s hres (fun t _ => quiet_of_rethrow_off hr t)
+    (inBuf_of h0 h1).1 (inBuf_of h0 h1).2
+  exact ⟨a, ha, oa.plain hv, oa.dots⟩
+
+/-- the progress line holds one indicator per test ... -/
+theorem progress_indicators (inds : List String) (hi : ∀ i ∈ inds, i ≠ "\n") :
+    ∀ d, (progressToks inds d).filter (· != "\n") = inds := by
+  induction inds with
+  | nil => intro d; simp [progressToks]
+  | cons i rest ih =>
+    intro d
+    have h1 : i ≠ "\n" := hi i (by simp)
+    have := ih (fun x hx => hi x (by simp [hx])) (d + 1)
+    unfold progressToks
+    split <;> simp [List.filter_cons, h1, this]
+
+/-- ... and exactly one line break for every 50th of them (counting the `d` printed before) -/
+theorem progress_line_breaks (inds : List String) (hi : ∀ i ∈ inds, i ≠ "\n") :
+    ∀ d, ((progressToks inds d).filter (· == "\n")).length = (d + inds.length) / 50 - d / 50 := by
+  induction inds with
+  | nil => intro d; simp [progressToks]
+  | cons i rest ih =>
+    intro d
+    have h1 : i ≠ "\n" := hi i (by simp)
+    have := ih (fun x hx => hi x (by simp [hx])) (d + 1)
+    unfold progressToks
+    split
+    · rename_i h50
+      simp [List.filter_cons, h1, this]
+      omega
+    · rename_i h50
+      simp [List.filter_cons, h1, this]
+      omega
+
+/-! ## TEST_EXIT, counting under a failing setup, the partition of the counts -/
+
+/-- **exit_test_semantics**: `TEST_EXIT` (both terminators) ends its phase at once, is not a check,
+    records no failure and does not set the failed flag; nothing after it runs. -/
+theorem exit_test_semantics (cfg : Cfg) (t : Test) (ph : Phase) (d : Int) (res : Result) (hf : Bool)
+    (pre post : List Stmt) (s : Stmt) (hs : s = .exitTest ∨ s = .exitTestC)
+    (hpre : ∀ x ∈ pre, x.terminates cfg.exceptions = false) :
+    let o := runStmts cfg t ph d res hf (pre ++ s :: post)
+    marksIn o.evs = (marksOf pre).map (fun n => (ph, n)) ∧ o.exit ≠ .normal ∧
+    failuresOf o.evs = [] ∧ o.res.failureCount = res.failureCount ∧
+    o.res.checkCount = res.checkCount + checksOf pre ∧ o.hasFailed = hf := by
+  have hterm : s.terminates cfg.exceptions = true := by rcases hs with rfl | rfl <;> rfl
+  have hex := executed_append_terminator cfg.exceptions s post hterm pre hpre
+  have hnf : ∀ x ∈ pre, Stmt.checkFailure cfg t x = none := by
+    intro x hx
+    have := hpre x hx
+    cases x <;> simp [Stmt.terminates] at this <;> rfl
+  have hcf : checkFailures cfg t (pre ++ s :: post) = [] := by
+    simp only [checkFailures, hex, List.filterMap_append, List.filterMap_eq_nil_iff]
+    rw [List.append_eq_nil_iff]
+    refine ⟨List.filterMap_eq_nil_iff.mpr hnf, ?_⟩
+    rcases hs with rfl | rfl <;> simp [Stmt.checkFailure]
+  obtain ⟨hm, hx⟩ := no_statement_after_terminator cfg t ph d res hf pre s post hpre hterm
+  refine ⟨hm, hx, ?_, ?_, ?_, ?_⟩
+  · rw [runStmts_failures, hcf]
+  · rw [runStmts_res, hcf]; simp
+  · rw [runStmts_res, hex]
+    simp only [checksOf, List.filter_append]
+    rcases hs with rfl | rfl <;> simp [Stmt.isCheck]
+  · rw [runStmts_hasFailed, hcf]; simp
+
+/-- **exit_in_setup_skips_body**: a `TEST_EXIT` in setup means setup did not complete: the body is not
+    entered, teardown is; the test still counts as run. -/
+theorem exit_in_setup_skips_body (cfg : Cfg) (plugins : List Plugin) (t : Test) (st : TSt)
+    (pre post : List Stmt) (s : Stmt) (hs : s = .exitTest ∨ s = .exitTestC) (hsetup : t.setup = pre ++ s :: post)
+    (hr : cfg.rethrow = false) (h0 : 0 ≤ st.depth) (h1 : st.depth + 2 ≤ Int.ofNat Gen.Runner.jmpBufLen) :
+    ∃ j, runOneTest cfg plugins t st = .ok j ∧ entersOf j.evs = [.setup, .teardown] ∧
+      j.st.res.runCount = st.res.runCount + 1 := by
+  obtain ⟨j, hj, o⟩ := test_outcome cfg plugins t st hr h0 h1
+  refine ⟨j, hj, ?_, ?_⟩
+  · rw [o.enters, phasesRun]
+    have : completes cfg.exceptions t.setup = false := by
+      rw [hsetup]
+      have hterm : s.terminates cfg.exceptions = true := by rcases hs with rfl | rfl <;> rfl
+      simp [completes, hterm]
+    simp [this]
+  · rw [o.res]; simp [Result.bump, Result.countRun]
+
+/-- **run_counted_whatever_happens**: a test that is selected and not ignored is counted as run exactly
+    once — also when its setup fails, throws or exits; its checks are those of the statements that
+    executed (setup up to its failure, no body, teardown). -/
+theorem run_counted_whatever_happens (cfg : Cfg) (plugins : List Plugin) (t : Test) (st : TSt)
+    (hr : cfg.rethrow = false) (h0 : 0 ≤ st.depth) (h1 : st.depth + 2 ≤ Int.ofNat Gen.Runner.jmpBufLen) :
+    ∃ j, runOneTest cfg plugins t st = .ok j ∧
+      j.st.res.runCount = st.res.runCount + 1 ∧
+      j.st.res.ignoredCount = st.res.ignoredCount ∧ j.st.res.testCount = st.res.testCount ∧
+      j.st.res.checkCount = st.res.checkCount + testChecks cfg t ∧
+      (completes cfg.exceptions t.setup = false →
+        testChecks cfg t = checksOf (executed cfg.exceptions t.setup) + checksOf (executed cfg.exceptions t.teardown)) := by
+  obtain ⟨j, hj, o⟩ := test_outcome cfg plugins t st hr h0 h1
+  refine ⟨j, hj, ?_, ?_, ?_, ?_, ?_⟩
+  · rw [o.res]; simp [Result.bump, Result.countRun]
+  · rw [o.res]; simp [Result.bump, Result.countRun]
+  · rw [o.res]; simp [Result.bump, Result.countRun]
+  · rw [o.res]; simp [Result.bump, Result.countRun]
+  · intro hc; simp [testChecks, phasesRun, hc, stmtsOf]
+
+/-- **counts_partition**: every registered test is counted exactly once as run, ignored or filtered out. -/
+theorem counts_partition (cfg : Cfg) (plugins : List Plugin) (ts : List Test) :
+    (expectedCounts cfg plugins ts).testCount =
+      (expectedCounts cfg plugins ts).runCount + (expectedCounts cfg plugins ts).ignoredCount +
+      (expectedCounts cfg plugins ts).filteredOutCount := by
+  have h1 := selected_length_le cfg ts
+  have h2 := running_length_le cfg ts
+  simp only [expectedCounts]
+  omega
+
+/-! ## rethrow mode -/
+
+/-- **rethrow_quiet_same**: rethrow mode changes nothing as long as no std / foreign exception leaves
+    a test. -/
+theorem rethrow_quiet_same (cfg : Cfg) (plugins : List Plugin) (ts : List Test) (n : Nat)
+    (hq : ∀ t ∈ ts, QuietTest cfg t) :
+    ∃ o, runAllTests cfg plugins ts n 0 = .ok o ∧ RunOutcome cfg plugins ts n 0 o :=
+  runAllTests_closed cfg plugins ts n 0 hq inBuf_top.1 inBuf_top.2
+
+/-- **rethrow_propagates**: in rethrow mode the first std / foreign exception that leaves a phase of a
+    selected, running test is recorded once and then leaves `runAllTests` (the modelled outcome
+    `Stop.propagated`): the phases after it, the post actions, the later tests, the summary and the
+    return value never happen; the setjmp index stays one above its start and the current test is
+    not restored (the process is expected to end). -/
+theorem rethrow_propagates (cfg : Cfg) (plugins : List Plugin) (pre : List Test) (t : Test) (post : List Test)
+    (ph : Phase) (k : ExcKind) (n : Nat)
+    (hx : cfg.exceptions = true) (hr : cfg.rethrow = true) (hq : ∀ x ∈ pre, QuietTest cfg x)
+    (hs : shouldRun cfg t = true) (hw : willRun cfg t = true) (hf : firstThrow cfg t = some (ph, k)) (hn : 0 < n) :
+    ∃ p, runAllTests cfg plugins (pre ++ t :: post) n 0 = .error (.propagated p) ∧
+      LeftOutcome cfg plugins pre t ph k 0 p :=
+  runAllTests_propagates cfg plugins pre t post ph k n 0 hx hr hq hs hw hf hn inBuf_top.1 inBuf_top.2
+
+/-! ## the int cast with a real program -/
 
 theorem expectedFailures_replicate (cfg : Cfg) (plugins : List Plugin) (t : Test)
     (hs : shouldRun cfg t = true) (hw : willRun cfg t = true) :
@@ -403,8 +572,8 @@ def failingTest : Test :=
     setup := [], body := [.failCpp ⟨"f.cpp", 2⟩ "x"], teardown := [] }
 
 def plainCfg (exc : Bool) : Cfg :=
-  { exceptions := exc, rethrow := false, verbose := false, runIgnored := false, groupFilters := [], nameFilters := [],
-    stdExcMsg := "std", otherExcMsg := "other" }
+  { exceptions := exc, rethrow := false, verbose := false, veryVerbose := false, color := false, runIgnored := false,
+    groupFilters := [], nameFilters := [], stdExcMsg := "std", otherExcMsg := "other", clock := [] }
 
 /-- **exit_value_wraps_program**: a program of exactly 2^32 failing tests makes the runner return 0
     although the repetition failed — in both build variants.  This is why `exit_zero_iff` carries
@@ -431,8 +600,8 @@ theorem exit_value_wraps_program (exc : Bool) :
 /-! ## non-vacuity: concrete programs -/
 
 def exCfg (exc : Bool) : Cfg :=
-  { exceptions := exc, rethrow := false, verbose := false, runIgnored := false, groupFilters := [], nameFilters := [],
-    stdExcMsg := "std", otherExcMsg := "other" }
+  { exceptions := exc, rethrow := false, verbose := false, veryVerbose := false, color := false, runIgnored := false,
+    groupFilters := [], nameFilters := [], stdExcMsg := "std", otherExcMsg := "other", clock := [] }
 
 /-- setup fails a C++-style check after mark 1; body must not run; teardown throws after mark 4 -/
 def exTest : Test :=
@@ -469,7 +638,7 @@ example :
     slot 10 — the model reports the fault instead of hiding it -/
 example :
     (match runAllTests (exCfg true) [] [exTest] 1 9 with
-     | .error (.jmpIndex 10) => true
+     | .error (.fault (.jmpIndex 10)) => true
      | _ => false) = true := by decide
 
 /-- a filter that selects nothing: "ran nothing", not OK, return value 1 -/
@@ -477,6 +646,41 @@ example :
     (runAllTests { exCfg true with nameFilters := [⟨"zz", false⟩] } [] [exTest] 1 0).toOption.map
       (fun o => (o.ret, o.reps.map (·.isFailure), o.reps.map (·.filteredOutCount)))
     = some (1, [true], [1]) := by
+  decide
+
+/-- very verbose, colour, a clock that runs 100, 107, 114, ...: the summary shows the elapsed time
+    between the first and last reading of the repetition, wrapped in the colour escapes -/
+example :
+    (runAllTests { exCfg true with veryVerbose := true, color := true, clock := (List.range 40).map (fun i => 100 + 7 * i) }
+        [] [exTest] 1 0).toOption.map
+      (fun o => ((summariesOf o.evs).map (·.2), (toksOf true o.evs).filter (fun s => s == "\x1b[31;1m" || s == "\x1b[m"),
+                 (plainToksOf o.evs).take 3))
+    = some ([35], ["\x1b[31;1m", "\x1b[m"],
+            ["TEST(g, n)", "\n-- before runAllPreTestAction: ", "\n-- after runAllPreTestAction: "]) := by
+  decide
+
+/-- rethrow mode: the exception thrown in teardown of the first test is recorded and leaves the run;
+    the second test never starts, no summary, index one above its start, current test not restored -/
+example :
+    (match runAllTests { exCfg true with rethrow := true } [exPlugin] [exTest, exTest] 2 0 with
+     | .error (.propagated p) =>
+       (p.kind, p.depth, p.current, (failuresOf p.evs).map (·.line), marksIn p.evs, (summariesOf p.evs).length) ==
+         (.std, 1, some "n", [12, 10], [(.setup, 1), (.teardown, 4)], 0)
+     | _ => false) = true := by
+  decide
+
+/-- the reader finds the three records and the summary in the whole text of the first example run -/
+example :
+    ((runAllTests (exCfg true) [exPlugin] [exTest] 1 0).toOption.map
+      (fun o => ((scanFailures (toksOf false o.evs)).map (fun p => (p.file, p.line)),
+                 (scanSummaries (toksOf false o.evs)).map (fun p => (p.ok, p.failures.getD "-", p.tests, p.ran, p.checks))))
+    == some ([("f.cpp", "12"), ("f.cpp", "10"), ("h.c", "7")], [(false, "3", "1", "1", "1")])) = true := by
+  decide
+
+/-- 51 passing tests, no `-v`: 51 dots and one line break after the 50th -/
+example :
+    let inds := List.replicate 51 "."
+    (progressToks inds 0).length = 52 ∧ (progressToks inds 0)[50]? = some "\n" ∧ (progressToks inds 0)[51]? = some "." := by
   decide
 
 end Runner
